@@ -198,6 +198,19 @@ func checkParseInput(c *h.Ctx, in string, rule string) (accepted bool) {
 		return false
 	}
 	c.Count("outcome.accepted", 1)
+	// Accepted: @ occurs only inside a filter and last only inside a
+	// subscript, however the input spelled them.
+	if rule == "" {
+		if bad := misplaced(p.Root(), 0, false); bad != "" {
+			r := "current-outside-filter"
+			if bad == "last" {
+				r = "last-outside-subscript"
+			}
+			c.Violate("reject."+r, h.F("rule", r, "via", "accepted-tree"), "the accepted path "+safeString(p)+" has "+bad+" where the documented syntax forbids it", inputCase(in, rule))
+		} else {
+			c.Held("placement")
+		}
+	}
 	// Accepted: printing must not panic, and every like_regex must compile.
 	func() {
 		defer func() {
@@ -232,6 +245,77 @@ func checkParseInput(c *h.Ctx, in string, rule string) (accepted bool) {
 		}
 	}
 	return true
+}
+
+// misplaced walks an accepted tree and names the first @ that is not inside a
+// filter expression or the first last that is not inside an array subscript
+// ("" when there is none). depth counts the enclosing filters.
+func misplaced(n ast.Node, depth int, inSub bool) string {
+	for ; n != nil && !gen.IsNilNode(n); n = n.Next() {
+		switch x := n.(type) {
+		case *ast.ConstNode:
+			switch x.Const() {
+			case ast.ConstCurrent:
+				if depth == 0 {
+					return "@"
+				}
+			case ast.ConstLast:
+				if !inSub {
+					return "last"
+				}
+			}
+		case *ast.BinaryNode:
+			if b := misplaced(x.Left(), depth, inSub); b != "" {
+				return b
+			}
+			if b := misplaced(x.Right(), depth, inSub); b != "" {
+				return b
+			}
+		case *ast.UnaryNode:
+			d := depth
+			if x.Operator() == ast.UnaryFilter {
+				d++
+			}
+			if b := misplaced(x.Operand(), d, inSub); b != "" {
+				return b
+			}
+		case *ast.RegexNode:
+			if b := misplaced(x.Operand(), depth, inSub); b != "" {
+				return b
+			}
+		case *ast.ArrayIndexNode:
+			for _, sub := range x.Subscripts() {
+				if b := misplaced(sub, depth, true); b != "" {
+					return b
+				}
+			}
+		}
+	}
+	return ""
+}
+
+// escapedKeyword respells one letter of a keyword with an escape sequence:
+// keywords are recognised after escapes are decoded, so the respelled word is
+// the same token.
+func escapedKeyword(kw string, k int) string {
+	i := k % len(kw)
+	ch := kw[i]
+	var e string
+	switch (k / len(kw)) % 4 {
+	case 0:
+		e = fmt.Sprintf(`\x%02x`, ch)
+	case 1:
+		e = fmt.Sprintf(`\u%04X`, ch)
+	case 2:
+		e = fmt.Sprintf(`\u{%x}`, ch)
+	default:
+		if strings.IndexByte("bfnrtvxu", ch) >= 0 {
+			e = fmt.Sprintf(`\u{0%x}`, ch)
+		} else {
+			e = `\` + string(ch)
+		}
+	}
+	return kw[:i] + e + kw[i+1:]
 }
 
 func safeString(p *path.Path) (s string) {
@@ -345,6 +429,7 @@ var tokenDict = []string{
 	".abs()", ".size()", ".type()", ".floor()", ".ceiling()", ".double()", ".keyvalue()", ".bigint()", ".boolean()", ".integer()", ".number()", ".string()",
 	".decimal(", ".decimal(5,2)", ".datetime()", ".datetime(\"HH24\")", ".date()", ".time()", ".time(3)", ".time_tz()", ".timestamp()", ".timestamp_tz(6)",
 	"true", "false", "null", " ", "\t", "\n", "/*", "*/", "/* c */", "\\", "\"", "'", "\x00", "\xff", "\xc3", "\u00e9", "\U0001F600", "--", "- -", "-(-1)", "+-", "- -0", "-(-0)", "-(-0.0)", "- -0x0", "-(-.0)", "- - 0e3", "-(-(-0))", "- -0b0", "-(- 0.)", "\\u", "\\u{", "\\x",
+	"la\\x73t", "l\\u0061st", "\\last", "las\\u{74}", "\\x40", "[last]", "[@]",
 }
 
 func runC04(c *h.Ctx) {
@@ -387,6 +472,12 @@ func runC04(c *h.Ctx) {
 		if c.Mine(i) {
 			check(nm[0], nm[1])
 			c.Sample("near-miss", map[string]string{"input": nm[0], "rule": nm[1]})
+			if nm[1] == "last-outside-subscript" {
+				// the same misplaced last, one of its letters written as an escape
+				for k := 0; k < 16; k++ {
+					check(strings.Replace(nm[0], "last", escapedKeyword("last", k), 1), nm[1])
+				}
+			}
 		}
 	}
 	// near-miss by construction: a character outside ASCII that is not an
@@ -440,9 +531,47 @@ func runC04(c *h.Ctx) {
 						rule = "current-outside-filter"
 					}
 					check(fmt.Sprintf(wrap, hd+b), rule)
+					if rule == "last-outside-subscript" && strings.Contains(b, "last") {
+						check(fmt.Sprintf(wrap, hd+strings.Replace(b, "last", escapedKeyword("last", k), 1)), rule)
+					}
 				}
 			}
 		}
+	}
+	// near-miss by construction: every byte that is not a hexadecimal digit
+	// (control characters and bytes that differ from a digit in one bit among
+	// them) in every digit position of every escape form, in every place an
+	// escape may appear
+	{
+		escs := []string{`\x41`, `\u00e9`, `\u00E9`, `\u{1F600}`, `\u{41}`, `\ud83d\ude04`}
+		ctxs := []string{`"a%sb"`, `$."k%s"`, `$.k%sz`, `$"v%s"`, `$.s like_regex "a%s"`, `$ ? (@ == "%s")`, `$.a.datetime("HH24%s")`}
+		k := 0
+		for _, e := range escs {
+			for pos := 0; pos < len(e); pos++ {
+				ch := e[pos]
+				if !(ch >= '0' && ch <= '9' || ch >= 'a' && ch <= 'f' || ch >= 'A' && ch <= 'F') || pos > 0 && e[pos-1] == '\\' {
+					continue
+				}
+				for x := 1; x < 256; x++ {
+					bx := byte(x)
+					if bx >= '0' && bx <= '9' || bx >= 'a' && bx <= 'f' || bx >= 'A' && bx <= 'F' || bx == '}' {
+						continue
+					}
+					for _, cx := range ctxs {
+						k++
+						if !c.Mine(k) {
+							continue
+						}
+						rule := "escape"
+						if bx >= 0x80 {
+							rule = "" // also invalid UTF-8, possibly completed by what follows: totality only
+						}
+						check(fmt.Sprintf(cx, e[:pos]+string([]byte{bx})+e[pos+1:]), rule)
+					}
+				}
+			}
+		}
+		c.Sample("near-miss", map[string]string{"input": "\"\\x4\x11\"", "rule": "escape"})
 	}
 	// near-miss by construction: a like_regex flag character outside i s m x q,
 	// among them the code points whose low byte is that of a valid flag
